@@ -270,7 +270,7 @@ class GenSource(object):
         if leaves:
             k, e = leaves[rng.randrange(len(leaves))]
             if k == 'i':
-                if rng.random() < 0.3:
+                if rng.random() < 0.4:
                     # type neighbour: the same number as a float (accepted by most callables, rejected with
                     # TypeError by a few; either way the answer must not depend on what was asked before)
                     e['f'] = float(e.pop('i')).hex()
@@ -336,6 +336,19 @@ class GenSource(object):
             return None      # the generator did not take the scripted object as receiver
         return self._finish({'name': name, 'recv': r[0], 'args': r[1], 'kwargs': r[2]}, task, depth)
 
+    def _push_life(self, q, kind_, hid, front=False):
+        rng = self.rng
+        uses = [n for n in NAMES if n.startswith(kind_ + '.') and ENTRIES[n].kind in ('meth', 'op') and
+                ENTRIES[n].effect == 'pure' and not n.endswith('#bad')]
+        same = rng.choice(uses) if uses and rng.random() < 0.7 else None   # observe the SAME thing before/after
+        steps = [('life', (w, kind_, hid, same if w == 'use' else None))
+                 for w in rng.choice([['use', 'change', 'use'], ['use', 'use', 'change', 'use', 'use'],
+                                      ['change', 'use'], ['use', 'change', 'change', 'use']])]
+        if front:
+            q[0:0] = steps
+        else:
+            q.extend(steps)
+
     def _life_step(self, sim, task, depth, what, kind, hid, fixed=None):
         """One scripted step in the life of object hid: 'use' (a pure method) or 'change' (a documented mutator)."""
         if hid not in sim.pool.handles:
@@ -385,6 +398,18 @@ class GenSource(object):
                     continue
                 sim.count('probe.call_repeated_with_equal_arguments')
                 return self._finish(self._core(val), task, depth)
+            elif what == 'life_any':
+                # script the life of one of the objects the caller received from op `val`
+                hs, rs = self.cfg['hstride'], self.cfg['rslots']
+                c = []
+                for h in sorted(pool.handles):
+                    if val * hs <= h < val * hs + rs and pool.owner.get(h) == task:
+                        inf = pool.infoof(pool.handles[h])
+                        if inf is not None and inf.kind in LIFE_KINDS and not inf.frozen and not inf.const:
+                            c.append((h, inf.kind))
+                if c:
+                    h, kind_ = c[rng.randrange(len(c))]
+                    self._push_life(q, kind_, h, front=True)
             elif what == 'life':
                 op = self._life_step(sim, task, depth, *val)
                 if op is not None:
@@ -426,12 +451,9 @@ class GenSource(object):
                     rng.random() < self.cfg['p_life']:
                 kind_ = name.split('.')[0]
                 hid = op['id'] * self.cfg['hstride']
-                uses = [n for n in NAMES if n.startswith(kind_ + '.') and ENTRIES[n].kind in ('meth', 'op') and
-                        ENTRIES[n].effect == 'pure' and not n.endswith('#bad')]
-                same = rng.choice(uses) if uses and rng.random() < 0.7 else None   # observe the SAME thing before/after
-                for w in rng.choice([['use', 'change', 'use'], ['use', 'use', 'change', 'use', 'use'],
-                                     ['change', 'use'], ['use', 'change', 'change', 'use']]):
-                    q.append(('life', (w, kind_, hid, same if w == 'use' else None)))
+                self._push_life(q, kind_, hid)
+            elif e.effect == 'pure' and e.kind != 'new' and rng.random() < self.cfg['p_life'] * 0.6:
+                q.append(('life_any', op['id']))
             has_list = any(isinstance(x, dict) and x.get('mk') == 'list' for x in args)
             if e.effect == 'pure' and rng.random() < self.cfg['p_repeat']:
                 rep = {'name': name, 'recv': copy.deepcopy(recv), 'args': copy.deepcopy(args),
@@ -463,9 +485,9 @@ class GenSource(object):
                             q.append(('mutate_arg', hids))
                 self._snaps(sim, rep)
                 r3 = rng.random()
-                if r3 < 0.25:
+                if r3 < 0.2:
                     q.append(('again', name))      # same callable, freshly generated arguments
-                elif r3 < 0.5:
+                elif r3 < 0.55:
                     q.append(('near', rep))        # same callable, neighbouring arguments
                 else:
                     q.append(('repeat', rep))
